@@ -106,7 +106,13 @@ type TypeInv struct {
 	Broken    string // set by the syntactic immutability check
 }
 
+type Guard struct {
+	Pkg, Type, Field, Lock string
+	Except                 []string
+}
+
 type ContractSet struct {
+	Guards    map[string]*Guard
 	ImmFields map[string]*ImmField
 	TypeInvs map[string]*TypeInv
 	ByName  map[string]*Contract // pkg + "." + Name
@@ -121,12 +127,12 @@ type ContractSet struct {
 }
 
 func NewContractSet() *ContractSet {
-	return &ContractSet{ImmFields: map[string]*ImmField{}, TypeInvs: map[string]*TypeInv{}, ByName: map[string]*Contract{}, Ghosts: map[string]*GhostVar{}, Specs: map[string]*SpecFunc{}, Defines: map[string]*Define{}}
+	return &ContractSet{Guards: map[string]*Guard{}, ImmFields: map[string]*ImmField{}, TypeInvs: map[string]*TypeInv{}, ByName: map[string]*Contract{}, Ghosts: map[string]*GhostVar{}, Specs: map[string]*SpecFunc{}, Defines: map[string]*Define{}}
 }
 
 var reFuncHdr = regexp.MustCompile(`^func\s+(?:\(([^)]*)\)\s*)?([A-Za-z_$][\w$.\[\],]*)`)
 var rePropLabel = regexp.MustCompile(`^\s*((?:C\d+,?)+/)?([A-Za-z_][\w\-.]*)\s*:\s+`)
-var keywords = []string{"captures", "nonnilpkg", "immutable", "assumes", "typeinv", "purepkg", "noreturn", "func", "iface", "props", "requires", "ensures", "modifies", "decreases", "may_panic", "no_panic", "pure", "trusted", "opaque", "inline", "loop", "ghost", "spec", "define", "axiom", "package"}
+var keywords = []string{"guarded", "captures", "nonnilpkg", "immutable", "assumes", "typeinv", "purepkg", "noreturn", "func", "iface", "props", "requires", "ensures", "modifies", "decreases", "may_panic", "no_panic", "pure", "trusted", "opaque", "inline", "loop", "ghost", "spec", "define", "axiom", "package"}
 
 func startsWithKeyword(s string) string {
 	for _, k := range keywords {
@@ -251,6 +257,21 @@ func (cs *ContractSet) LoadFile(path, pkg string, trusted bool) {
 			cs.NonNilPkgs = append(cs.NonNilPkgs, rest)
 		case "purepkg":
 			cs.PurePkgs = append(cs.PurePkgs, rest)
+		case "guarded":
+			// guarded T.f by T.mu [except ctor1,ctor2]: every access to field f needs the lock mu of the same object
+			m := regexp.MustCompile(`^(\w+)\.(\w+)\s+by\s+(\w+)\.(\w+)(?:\s+except\s+(.+))?$`).FindStringSubmatch(rest)
+			if m == nil || m[1] != m[3] {
+				errf(l.line, "bad guarded declaration (want: guarded T.f by T.mu [except f1,f2])")
+				continue
+			}
+			g := &Guard{Pkg: pkg, Type: m[1], Field: m[2], Lock: m[4]}
+			for _, x := range strings.Split(m[5], ",") {
+				if x = strings.TrimSpace(x); x != "" {
+					g.Except = append(g.Except, x)
+				}
+			}
+			cs.Guards[pkg+"."+m[1]+"."+m[2]] = g
+			cur = nil
 		case "immutable":
 			// immutable T.f, T.g by ctor1,ctor2
 			decl, by := rest, ""
@@ -315,8 +336,8 @@ func (cs *ContractSet) LoadFile(path, pkg string, trusted bool) {
 			cs.ByName[k] = cur
 		case "ghost":
 			f := strings.Fields(rest)
-			if len(f) == 3 && f[0] == "var" {
-				cs.Ghosts[f[1]] = &GhostVar{Name: f[1], Type: f[2], Pkg: pkg}
+			if len(f) >= 3 && f[0] == "var" {
+				cs.Ghosts[f[1]] = &GhostVar{Name: f[1], Type: strings.Join(f[2:], " "), Pkg: pkg}
 			} else {
 				errf(l.line, "bad ghost decl")
 			}
